@@ -19,13 +19,7 @@ tvars == <<vars, tid, l, phase>>
 
 Ev == Traces[tid].events[l]
 
-SigsOf(ev) ==
-  [n \in Names |->
-     LET S == {i \in DOMAIN ev.entries : ev.entries[i].name = n} IN
-     IF S = {} THEN Absent
-     ELSE LET v == ev.entries[CHOOSE i \in S : TRUE].v IN V(v[1], v[2], v[3], v[4], v[5])]
-
-CaseOf(ev) == [sigs |-> SigsOf(ev), auth |-> {ev.auth[i] : i \in DOMAIN ev.auth}, thr |-> ev.thr, gpg |-> ev.gpg]
+CaseOf(ev) == [sigs |-> SigsFromEntries(ev.entries), auth |-> SeqToSet(ev.auth), thr |-> ev.thr, gpg |-> ev.gpg]
 
 TInit == /\ tid \in DOMAIN Traces /\ l = 1 /\ phase = "idle"
          /\ case = [sigs |-> [n \in Names |-> Absent], auth |-> {}, thr |-> 1, gpg |-> FALSE]
